@@ -218,6 +218,9 @@ def run(tier, seed):
                       ost.get("validation_checks", 0)),
                    not errs2 and ost.get("copies_ok", 0) > 50 and ost.get("duplicates_ok", 0) > 20 and ost.get("cross_version_copies", 0) > 10,
                    "; ".join(errs2)[:400])
+        hung_gen = sum(int(m.group(1)) for s, _ in all_shards for l in s.get("gen_stats", []) for m in [re.match(r"STAT hung_generations=(\d+)", l)] if m)
+        ctx.oblige("oracle:no copy / duplicate history blocks (hung generations %d, hung oracle scripts %d)" % (hung_gen, ost.get("hung_scripts", 0)),
+                   hung_gen == 0 and ost.get("hung_scripts", 0) == 0)
         sc0 = split_scripts(shards[0]["script_file"]) if os.path.exists(shards[0]["script_file"]) else {}
         for k0 in sorted(sc0)[1:3]:
             ctx.samples.append({"script": [l for l in sc0[k0].split("\n") if l.startswith("OP")][:16]})
